@@ -557,18 +557,41 @@ pub fn check(case: &Case, idx: u64, acc: &mut Acc) {
                     }
                 }
             }
-            let mut steps: Vec<(&Vec<f64>, usize, usize)> = vec![];
-            for a in menu.iter() {
-                for b in menu.iter() {
-                    steps.push(*a);
-                    steps.push(*b);
+            // a refused solve (one site too few) is put between the two: it must return Err and must not disturb what
+            // the next solve produces
+            let short: Vec<f64> = even[..n - 1].to_vec();
+            // (sites, left_n, right_n, kind): kind 0 a proper solve, 1 refused for one site too few, 2 refused for a
+            // value vector one short on the NEXT configuration's own sites and end conditions
+            let mut steps: Vec<(&Vec<f64>, usize, usize, u8)> = vec![];
+            for (ai, a) in menu.iter().enumerate() {
+                for (bi, b) in menu.iter().enumerate() {
+                    steps.push((a.0, a.1, a.2, 0));
+                    match (ai + bi) % 4 {
+                        0 => steps.push((&short, a.1, b.2, 1)),
+                        2 => steps.push((b.0, b.1, b.2, 2)),
+                        _ => {}
+                    }
+                    steps.push((b.0, b.1, b.2, 0));
                 }
             }
             let mut reused = PPSpline::<f64>::new(k, t.clone(), None);
             let yd: Vec<Dual> = y.iter().enumerate().map(|(j, v)| Dual::new(*v, vec![format!("y{}", j)])).collect();
             let mut reused_d = PPSpline::<Dual>::new(k, t.clone(), None);
-            for (si, (tau, l, r)) in steps.iter().enumerate() {
+            for (si, (tau, l, r, kind)) in steps.iter().enumerate() {
                 if *l >= k || *r >= k {
+                    continue;
+                }
+                if *kind != 0 {
+                    // a refused step: one site too few (values cut to match), or the right sites with one value too few
+                    if *l >= k || *r >= k {
+                        continue;
+                    }
+                    acc.evals_add(2);
+                    let r1 = reused.csolve(tau, &y[..n - 1].to_vec(), *l, *r, false);
+                    let r2 = reused_d.csolve(tau, &yd[..n - 1].to_vec(), *l, *r, false);
+                    if r1.is_ok() || r2.is_ok() {
+                        acc.violate("resolve/mismatched-counts-accepted", idx, cj(), json!({"step": si, "sites": tau, "values": n - 1}), json!("Ok"));
+                    }
                     continue;
                 }
                 acc.evals_add(2);
@@ -694,7 +717,8 @@ pub fn cases(tier: Tier) -> Vec<Case> {
         }
         for interior in interior_configs(k) {
             let tot: usize = interior.iter().map(|(_, m)| *m).sum();
-            if tot > 3 {
+            // (orders 5 and 6 with three interior knots are 320 000 further cases of 9 x 9 exact systems: left out)
+            if tot > if k >= 5 { 2 } else { 3 } {
                 continue;
             }
             let n = k + tot;
@@ -765,7 +789,7 @@ pub fn run(ctx: &Ctx, replay_file: Option<String>) -> ! {
     }
     let acc = explore(&cs, check);
     let meta = Meta::exploration(
-        "order k = 2..4 (6); every knot vector of C14 with total interior multiplicity <= 3; data sites = EVERY n-subset \
+        "order k = 2..4 (6); every knot vector of C14 with total interior multiplicity <= 3 (<= 2 for orders 5 and 6); data sites = EVERY n-subset \
          of the candidate grid (break points, span mid points, and quarter points where the grid is small / in the \
          thorough tier) whose exact collocation matrix is non-singular with condition < 1e6 (Schoenberg-Whitney), plus \
          the natural layout with repeated end sites; end conditions (left_n, right_n) in {(0,0),(1,1),(2,2),(0,2),(1,0)} \
@@ -776,8 +800,7 @@ pub fn run(ctx: &Ctx, replay_file: Option<String>) -> ! {
          and Dual2 data: sensitivity to datum j = the unit-data spline, zero Hessian; Dual/Dual2 abscissas on float, \
          Dual and Dual2 splines: first / second derivative of the spline as sensitivities (chain rule with a non-unit \
          gradient and a non-zero Hessian on the abscissa); 3x3 type table of mapped_value; count mismatches and \
-         evaluation before solving are errors; one spline object solved repeatedly (same sites with different end \
-         conditions, then other sites) equals a fresh object solved once, bit for bit. Long splines (orders 2..4 with 5, 13, 27..32, 60 interior integer knots, i.e. up to 64 basis functions; order 4 in the natural layout): the collocation matrix entry by entry against the single-function evaluators, reproduction of the polynomials of degree < k in value and every derivative, data reproduction and end conditions in all three number types with unit-vector sensitivities at the sites, data sensitivities against the float spline solved on unit data, Dual2 abscissa on the float spline (tolerance oracle, 1e-8). Non-trivial: asymmetric end conditions or the natural layout.",
+         evaluation before solving are errors; one spline object taken through every ordered pair of (sites, end conditions) configurations, with a refused solve in between on every other pair, equals a fresh object solved once, bit for bit. Long splines (orders 2..4 with 5, 13, 27..32, 60 interior integer knots, i.e. up to 64 basis functions; order 4 in the natural layout): the collocation matrix entry by entry against the single-function evaluators, reproduction of the polynomials of degree < k in value and every derivative, data reproduction and end conditions in all three number types with unit-vector sensitivities at the sites, data sensitivities against the float spline solved on unit data, Dual2 abscissa on the float spline (tolerance oracle, 1e-8). Non-trivial: asymmetric end conditions or the natural layout.",
         json!({"max_order": ctx.tier.pick(4, 6), "cases": cs.len()}),
     )
     .assume("exact rational B-spline model (harness/src/bspline.rs)");
